@@ -10,7 +10,7 @@ from ..core.runner import Partial
 
 LEVEL = "fault_enumeration"
 RULE = ("fixtures (plain folder with nested sub-folder, a 70 kB file and names sorting before/after the markers; single zip; "
-        "folder of zips + README) x relative_path None / nested x initial local state (absent, parent exists, user-provided "
+        "folder of zips + README, also with upper-/mixed-case archive extensions) x relative_path None / nested x initial local state (absent, parent exists, user-provided "
         "folder, completed automatic copy) x num_workers 0/1 x directory listing order sorted/reversed x both copy functions; "
         "every crash point (file-system mutation about to happen, incl. intra-file transfer chunks and created-but-unflushed "
         "marker files) of attempt 1 is taken by killing a forked child with os._exit; from every distinct resulting tree every "
@@ -61,6 +61,8 @@ def build_source(groot, fmt, rel):
     else:
         os.makedirs(src)
         for z, names in (ZIP_SPLIT3 if fmt == "zips3" else ZIP_SPLIT).items():
+            if fmt == "zipsU":  # archives named by another tool: upper- / mixed-case extension
+                z = z[:-4] + (".ZIP" if z.endswith("0.zip") else ".Zip")
             make_zip(os.path.join(src, z), names)
         with open(os.path.join(src, "README.txt"), "wb") as f:
             f.write(b"readme\n")
@@ -96,6 +98,17 @@ class Scenario:
         self.dst_rel = os.path.relpath(os.path.join(self.lroot, rel) if rel else self.lroot, self.lroot_top)
         self.expected = expected_data(fmt, fn)
         self.source_tree = crashfs.tree(os.path.join(self.root, "global"))
+        self.expected_alt = [self.expected]
+        if fmt == "zipsU":
+            # either reading is a complete copy: the files as they are (what the library does today), or their extracted content
+            src_rel = os.path.relpath(os.path.join(self.groot, rel) if rel else self.groot, os.path.join(self.root, "global"))
+            pre = "" if src_rel == "." else src_rel + os.sep
+            raw = {k[len(pre):]: v[1] for k, v in self.source_tree.items() if k.startswith(pre) and v[0] == "f"}
+            if fn == "image_folder":
+                ex = {os.path.join(z[:-4], n): FILES[n] for z, names in ZIP_SPLIT.items() for n in names}
+            else:
+                ex = dict(FILES)
+            self.expected, self.expected_alt = raw, [raw, ex]
         self.func, self.module = get_fn(fn)
         import kappadata.copying.copying_utils as cu
         self.modules = [self.module, cu]
@@ -152,7 +165,7 @@ class Scenario:
 
     def is_complete(self, t):
         data, s, e, _ = self.data_of(t)
-        return s and e and data == self.expected
+        return s and e and any(data == alt for alt in self.expected_alt)
 
     def cleanup(self):
         shutil.rmtree(self.root, ignore_errors=True)
@@ -266,9 +279,10 @@ def final_checks(sc, state_tree, history, p):
         if res["was_copied"] != bool(ops1):
             bad("result_untruthful", f"was_copied={res['was_copied']} but the call performed {len(ops1)} file-system mutations")
         if res["was_copied"]:
-            if sc.fn == "folder" and res.get("source_format") != {"raw": "raw", "zip": "zip", "zips": "zips", "zips3": "zips"}[sc.fmt]:
+            if sc.fn == "folder" and sc.fmt != "zipsU" and \
+                    res.get("source_format") != {"raw": "raw", "zip": "zip", "zips": "zips", "zips3": "zips"}[sc.fmt]:
                 bad("result_untruthful", f"source_format={res.get('source_format')} for a {sc.fmt} source")
-            if sc.fn == "image_folder" and (bool(res.get("was_zip")), bool(res.get("was_zip_classwise"))) != \
+            if sc.fn == "image_folder" and sc.fmt != "zipsU" and (bool(res.get("was_zip")), bool(res.get("was_zip_classwise"))) != \
                     (sc.fmt == "zip", sc.fmt in ("zips", "zips3")):
                 bad("result_untruthful", f"{res} for a {sc.fmt} source")
         if was_complete and ops1:
@@ -384,10 +398,13 @@ def scenarios(tier, seed):
                 sel.append(s)
         out = sel
         out.append(("zips3", None, "parent", "folder", 2, False))
+        out += [("zipsU", None, "parent", fn, 0, False) for fn in ("folder", "image_folder")]
         for fn in ("folder", "image_folder"):
             out += [("zip+faults", None, "parent", fn, 0, False), ("zips+faults", None, "absent", fn, 0, False),
                     ("zips3+faults", "nest/ds", "parent", fn, 1, True), ("zips3+faults", None, "parent", fn, 2, False)]
     else:
+        out += [("zipsU", rel, initial, fn, w, rev) for fn in ("folder", "image_folder") for rel, initial, w, rev in
+                ((None, "parent", 0, False), ("nest/ds", "absent", 1, True), (None, "complete", 0, False))]
         for fn in ("folder", "image_folder"):
             for fmt in ("zip", "zips", "zips3"):
                 for workers in (0, 1, 2, 3):
